@@ -36,7 +36,7 @@ open AsciiStr
 /-- Which variant of the code is modelled (`true` = rich 9.10.0 as found, `false` = repaired). -/
 structure Cfg where
   /-- flags of the Style model (C06); only the fields of styles are observed here -/
-  sv : Variant
+  sv : StyleVariant
   /-- F10: `int(_code)` for a code that passes `str.isdigit()` but that `int()` rejects (`"²"`, or more
   digits than `sys.get_int_max_str_digits()`) raises `ValueError` out of `decode_line`;
   repaired: such a code is skipped like every other invalid code. -/
@@ -44,10 +44,19 @@ structure Cfg where
   /-- F20: `FileProxy.flush` hands the pending text to `console.print(str)` — markup, emoji and
   highlighting on, no ANSI decoding; repaired: decoded and printed exactly like `write` does. -/
   flushRaw : Bool
+  /-- F27: an omitted SGR parameter is dropped, so `ESC [ m` (ECMA-48: the same as `ESC [ 0 m`) does nothing and
+  `ESC [ ; 1 m` does not reset; repaired: an omitted parameter stands for 0 (ECMA-48 5.4.2). -/
+  emptyIgnored : Bool
+  /-- F28: SGR 0 replaces the running style by the null style, dropping the OSC 8 hyperlink with it (SGR does
+  not govern hyperlinks: text after a reset inside a link is still linked on a terminal); repaired: the link is kept. -/
+  resetDropsLink : Bool
+  /-- F29: 24 / 25 read "not underline" / "not blink" only, leaving the double underline (21) / rapid blink (6)
+  on, where ECMA-48 says "not underlined (neither singly nor doubly)" / "steady"; repaired: both are cleared. -/
+  offSingle : Bool
 deriving Repr, DecidableEq
 
-def Cfg.old : Cfg := ⟨Variant.fixed, true, true⟩
-def Cfg.repaired : Cfg := ⟨Variant.fixed, false, false⟩
+def Cfg.old : Cfg := ⟨StyleVariant.fixed, true, true, true, true, true⟩
+def Cfg.repaired : Cfg := ⟨StyleVariant.fixed, false, false, false, false, false⟩
 
 def ESC : Char := Char.ofNat 27
 
@@ -223,11 +232,20 @@ deriving Repr, DecidableEq
 def sgrLookup (code : Nat) : Option (List Char) :=
   (Gen.sgrStyleMap.find? fun p => p.1 == code).map (·.2)
 
-/-- `[min(255, int(_code)) for _code in … if _code.isdigit()]` -/
+/-- `SGR_STYLE_MAP.get(code)` with the two rows that F29 is about taken from the variant flag instead of the
+translated table (the correspondence ties the flag to the working tree: every code is compared on every run). -/
+def sgrLookupV (cfg : Cfg) (code : Nat) : Option (List Char) :=
+  if code = 24 then some (if cfg.offSingle then cl! "not underline" else cl! "not underline not underline2")
+  else if code = 25 then some (if cfg.offSingle then cl! "not blink" else cl! "not blink not blink2")
+  else sgrLookup code
+
+/-- `[min(255, int(_code)) for _code in … if _code.isdigit()]`; repaired (F27): an empty `_code` is 0. -/
 def codesLoop (cfg : Cfg) : List (List Char) → Except DecErr (List Nat)
   | [] => .ok []
   | c :: r =>
-    if strIsDigit c then
+    if c.isEmpty then
+      if cfg.emptyIgnored then codesLoop cfg r else (codesLoop cfg r).map (0 :: ·)
+    else if strIsDigit c then
       match pyIntDigits c with
       | some n => (codesLoop cfg r).map (min 255 n :: ·)
       | none => if cfg.intRaises then .error .valueError else codesLoop cfg r
@@ -263,6 +281,17 @@ def extColor : List Nat → Option (Option Color × Nat)
       | _ => none
     else some (none, 1)
 
+/-- `Style(link=link)`: what `__init__` builds when only a (truthy) link is given. -/
+def linkOnly (link : Option (List Char)) : Style :=
+  { color := none, bgcolor := none, attributes := 0, setAttributes := 0, link := link,
+    hash := ⟨none, none, some 0, some 0, link⟩, isNull := false, styleDef := none }
+
+/-- The style after SGR 0.  As found: `Style.null()`.  Repaired (F28):
+`Style(link=self.style.link) if self.style.link else Style.null()`. -/
+def resetOf (cfg : Cfg) (st : Style) : Style :=
+  if cfg.resetDropsLink then Style.null
+  else if strTruthy st.link then linkOnly st.link else Style.null
+
 /-- The `for code in iter_codes` loop (ansi.py:157-196).  The sub-parsers of 38 / 48 pull further codes
 from the same iterator: the third argument counts codes already consumed that way.
 Returns the style reached and the exception, if one was raised. -/
@@ -270,9 +299,9 @@ def applyCodes (cfg : Cfg) : Style → List Nat → Nat → Style × Option DecE
   | st, [], _ => (st, none)
   | st, _ :: r, k + 1 => applyCodes cfg st r k
   | st, code :: r, 0 =>
-    if code = 0 then applyCodes cfg Style.null r 0
+    if code = 0 then applyCodes cfg (resetOf cfg st) r 0
     else
-      match sgrLookup code with
+      match sgrLookupV cfg code with
       | some d =>
         match Style.parse cfg.sv d with
         | .ok s => applyCodes cfg (Style.add cfg.sv st s) r 0
@@ -315,7 +344,8 @@ def decodeTok (cfg : Cfg) (st : Style) : Token → Style × Option Run × Option
         if p.2.1 then (Style.updateLink cfg.sv st (linkOrNone p.2.2), none, none) else (st, none, none)
       | none => (st, none, none)
   | .sgr s =>
-    if s.isEmpty then (st, none, none)
+    -- as found: `elif sgr:` skips the empty parameter string; repaired (F27): every SGR match is read
+    if s.isEmpty && cfg.emptyIgnored then (st, none, none)
     else
       match sgrCodes cfg s with
       | .error e => (st, none, some e)
@@ -377,7 +407,7 @@ inductive EncErr where
   /-- `_style_map[bit]` -/
   | keyError
   /-- `assert` in `Color.get_ansi_codes` / `downgrade` -/
-  | color (e : PyErr)
+  | color (e : ColorErr)
 deriving Repr, DecidableEq
 
 /-- `Style._style_map.get(bit)` -/
